@@ -4,6 +4,7 @@
 -/
 import NPModel.Refine.Repack
 import NPModel.Spec.Frame
+import NPModel.Refine.Repacked
 namespace NP.C12
 open NP
 variable {α : Type}
@@ -96,5 +97,23 @@ theorem base_is_default (nested : List String) : resolveDropnaTarget nested none
 example : keepRecord (fun (c : Option Nat) => c.isNone) .any none [some 1, none] = false ∧
     keepRecord (fun (c : Option Nat) => c.isNone) .all none [some 1, none] = true ∧
     keepRecord (fun (c : Option Nat) => c.isNone) .any (some 1) [some 1, none] = true := by decide
+
+/-- **`dropna` on a nested layer, at the level of the frame**: with `masks` = "this record has no
+    null in the inspected fields" (any masks), the flat view filtered by the flattened mask and
+    re-packed through `_set_filtered_flat_df` leaves in row `i` exactly the complete records of
+    row `i` in their original order, every field filtered by the same mask; a row left without
+    records becomes missing, and no row of the frame is dropped (`col.rows.length` = number of
+    frame rows). -/
+theorem dropna_filters_rows_of_the_frame (F : NFrame α) (nest : String)
+    (cols : List (String × String × List (List α))) (lens : List Nat) (masks : List (List Bool))
+    (hn : lens.length = F.index.length) (hcols : ∀ c ∈ cols, c.2.2.map List.length = lens)
+    (hmasks : All2 (fun m n => m.length = n) masks lens) (hne : cols ≠ []) :
+    ∃ col, F.setFilteredFlatDf nest ((ordFlat cols lens).filterRows masks.flatten) = .ok (F.setCol nest (.nest col)) ∧
+      col.rows = repackedRows (cols.map fun c => (c.1, c.2.1, filterRowsBy masks c.2.2))
+        (masks.map fun m => (m.filter id).length) ∧ col.rows.length = F.index.length := by
+  obtain ⟨col, h1, h2⟩ := filter_then_repack F nest cols lens masks hn hcols hmasks hne
+  refine ⟨col, h1, h2, ?_⟩
+  rw [h2]
+  simp [repackedRows, hmasks.length_eq, hn]
 
 end NP.C12
